@@ -264,7 +264,7 @@ func (ld *Loaded) RunHarness(name string, opts RunOptions) (*Result, error) {
 		opts.InstrBudget = 20_000_000
 	}
 	if opts.SolverTimeoutMs == 0 {
-		opts.SolverTimeoutMs = 20000
+		opts.SolverTimeoutMs = 60000
 	}
 	if opts.MaxPaths == 0 {
 		opts.MaxPaths = 2_000_000
